@@ -382,5 +382,7 @@ fn main() {
     // the whole exploration once more against the subject built WITHOUT its `std` feature (the first Newton guess comes from libm::exp2 instead of f64::exp2)
     run.bound("build_variants", "std (this process) + no_std (child process, same domain)");
     run.variant("no_std");
+    // ... and against the subject built under a non-default compile-time configuration (mc/variants/cfg_alt/build.env)
+    run.variant("cfg_alt");
     run.finish();
 }
